@@ -863,6 +863,14 @@ def run(ctx, scale):
       check_case(ctx, gen_mcq_case(ctx.rng, qn, iters, per_loop, npend))
       if len(ctx.violations) >= 5:
         return
+  if ctx.tier == "quick":
+    # Monte-Carlo improvement WITH failure models (q = 1, with and without pending points) against EI x P(success):
+    # the same labelled statistical test as in the thorough tier, two shapes per unit of budget
+    for _ in range(scale):
+      for npend, nf, co in [(0, 1, False), (1, 2, False)]:
+        check_case(ctx, gen_mc_case(ctx.rng, npend, nf, co))
+        if len(ctx.violations) >= 5:
+          return
   if ctx.tier == "thorough" and scale == 1:
     # labelled statistical test; plain qEI first (without / with pending points), then with failure models
     plan = ([(0, 0, False)] * 5 + [(1, 0, False)] * 3 + [(2, 0, False)] * 2 + [(1, 0, True), (2, 0, True), (2, 0, True)]
